@@ -46,6 +46,10 @@
 #define VP_G_ALL VP_G_STEP, vp_g.queued, vp_g.p_calls, vp_g.v_calls, vp_g.cond_evals, vp_g.last_cond, vp_g.last_sem_outcome
 #endif
 
+/* everything a release that may run nsync_mu_unlock_slow_ writes (it wakes waiters) */
+#define VP_WK_FIELDS_ vp_wk.cleared, vp_wk.posted, vp_wk.pending, vp_wk.last_cleared
+#define VP_UNLOCK_FRAME VP_G_ALL, VP_FW_DATA, vp_cvg.spin, VP_WK_FIELDS_
+
 #define VP_IS_LTYPE(t) ((t) == nsync_writer_type_ || (t) == nsync_reader_type_)
 #define VP_HOLD_OF(t) ((t) == nsync_writer_type_ ? VP_WRITER : VP_READER)
 
@@ -108,9 +112,10 @@ __CPROVER_requires (VP_PRE_UNLOCK_SLOW (mu, l_type))
 __CPROVER_ensures (VP_POST_UNLOCK_SLOW_A ())
 __CPROVER_ensures (vp_g.queued == __CPROVER_old (vp_g.queued) && vp_g.waited == __CPROVER_old (vp_g.waited))
 __CPROVER_ensures (vp_g.p_calls == __CPROVER_old (vp_g.p_calls) && vp_g.last_sem_outcome == __CPROVER_old (vp_g.last_sem_outcome))
+__CPROVER_ensures (vp_cvg.spin == __CPROVER_old (vp_cvg.spin) && vp_wk.pending == __CPROVER_old (vp_wk.pending))
 /* C02 H1: if the release leaves the MU_DESIG_WAKER this thread set, it has woken at least one waiter */
 __CPROVER_ensures (!vp_g.released_with_desig || vp_g.v_calls != __CPROVER_old (vp_g.v_calls))
-__CPROVER_assigns (VP_G_ALL, VP_FW_DATA, vp_cvg.spin, vp_wk.cleared, vp_wk.posted, vp_wk.pending, vp_wk.last_cleared, mu->word, mu->waiters);
+__CPROVER_assigns (VP_UNLOCK_FRAME, mu->word, mu->waiters);
 
 /* (C04: inside a cv wait the mutex is released only after the waiter is on the cv's queue) */
 void nsync_mu_unlock (nsync_mu *mu)
@@ -119,7 +124,8 @@ __CPROVER_requires (!vp_cvg.in_wait || vp_cvg.enq_done)
 __CPROVER_ensures (vp_g.hold == VP_NONE && !vp_g.spin && vp_g.dead == (vp_g.release_ctx ? 1 : 0))
 __CPROVER_ensures (vp_g.queued == __CPROVER_old (vp_g.queued) && vp_g.waited == __CPROVER_old (vp_g.waited))
 __CPROVER_ensures (vp_g.p_calls == __CPROVER_old (vp_g.p_calls) && vp_g.last_sem_outcome == __CPROVER_old (vp_g.last_sem_outcome))
-__CPROVER_assigns (VP_G_ALL, VP_FW_DATA, mu->word, mu->waiters);
+__CPROVER_ensures (vp_cvg.spin == __CPROVER_old (vp_cvg.spin) && vp_wk.pending == __CPROVER_old (vp_wk.pending))
+__CPROVER_assigns (VP_UNLOCK_FRAME, mu->word, mu->waiters);
 
 void nsync_mu_runlock (nsync_mu *mu)
 __CPROVER_requires (VP_TYPES_OK () && VP_MU_IS (mu) && vp_g.hold == VP_READER && !vp_g.spin && !vp_g.dead)
@@ -127,7 +133,8 @@ __CPROVER_requires (!vp_cvg.in_wait || vp_cvg.enq_done)
 __CPROVER_ensures (vp_g.hold == VP_NONE && !vp_g.spin && vp_g.dead == (vp_g.release_ctx ? 1 : 0))
 __CPROVER_ensures (vp_g.queued == __CPROVER_old (vp_g.queued) && vp_g.waited == __CPROVER_old (vp_g.waited))
 __CPROVER_ensures (vp_g.p_calls == __CPROVER_old (vp_g.p_calls) && vp_g.last_sem_outcome == __CPROVER_old (vp_g.last_sem_outcome))
-__CPROVER_assigns (VP_G_ALL, VP_FW_DATA, mu->word, mu->waiters);
+__CPROVER_ensures (vp_cvg.spin == __CPROVER_old (vp_cvg.spin) && vp_wk.pending == __CPROVER_old (vp_wk.pending))
+__CPROVER_assigns (VP_UNLOCK_FRAME, mu->word, mu->waiters);
 
 /* Spin until (*w & test) == 0, then *w = (*w | set) & ~clear with acquire order.  On the mutex word it is used
    only to take the queue spinlock (possibly announcing a waiter): the caller must not own the spinlock. */
@@ -155,7 +162,8 @@ __CPROVER_requires (VP_TYPES_OK () && VP_MU_IS (mu) && vp_g.hold == VP_WRITER &&
 __CPROVER_ensures (vp_g.hold == VP_NONE && !vp_g.spin && vp_g.dead == (vp_g.release_ctx ? 1 : 0))
 __CPROVER_ensures (vp_g.queued == __CPROVER_old (vp_g.queued) && vp_g.waited == __CPROVER_old (vp_g.waited))
 __CPROVER_ensures (vp_g.p_calls == __CPROVER_old (vp_g.p_calls) && vp_g.last_sem_outcome == __CPROVER_old (vp_g.last_sem_outcome))
-__CPROVER_assigns (VP_G_ALL, VP_FW_DATA, mu->word, mu->waiters);
+__CPROVER_ensures (vp_cvg.spin == __CPROVER_old (vp_cvg.spin) && vp_wk.pending == __CPROVER_old (vp_wk.pending))
+__CPROVER_assigns (VP_UNLOCK_FRAME, mu->word, mu->waiters);
 
 /* queue-link helper, abstracted in word-level proofs (its exact behaviour on the links is proved under C06/C17) */
 nsync_dll_list_ nsync_remove_from_mu_queue_ (nsync_dll_list_ mu_queue, nsync_dll_element_ *e)
@@ -191,6 +199,6 @@ int nsync_mu_wait_with_deadline (nsync_mu *mu, int (*condition) (const void *con
 __CPROVER_requires (VP_PRE_MU_WAIT (mu, condition))
 __CPROVER_ensures (VP_POST_MU_WAIT_HOLD (__CPROVER_old (vp_g.hold)))
 __CPROVER_ensures (VP_POST_MU_WAIT_RESULT (__CPROVER_return_value, condition))
-__CPROVER_assigns (VP_G_ALL, VP_FW_DATA, vp_cvg.spin, vp_my_w, vp_reg.my_waiting, mu->word, mu->waiters);
+__CPROVER_assigns (VP_UNLOCK_FRAME, vp_my_w, vp_reg.my_waiting, mu->word, mu->waiters);
 
 #endif
